@@ -156,6 +156,46 @@ func busySenderScenario(kind string, buf uint) func() {
 	}
 }
 
+// afterOneWayResetScenario: the history before the quorum call is a one-way message written to node 2 and a
+// reset of node 2's stream (the node stays up and the stream is re-created). Both nodes then answer the quorum
+// call, which must return success: what the one-way message left behind must not keep it from returning.
+func afterOneWayResetScenario(kind string, nsw bool, oneWay string) func() {
+	return func() {
+		w := world.New(world.Opts{N: 2})
+		if w.Cfg == nil {
+			return
+		}
+		w.Handle = func(h *world.HCtx) world.Reply { return world.Reply{} }
+		x := w.NewCall(oneWay)
+		x.NoSendWaiting = nsw
+		if oneWay == "Unicast" {
+			x.Node = 2
+		}
+		x.Ctx = context.Background()
+		w.Invoke(x)
+		mc.Quiesce()
+		w.FW.Reset(world.Addr(2))
+		mc.Quiesce()
+		c := w.NewCall(kind)
+		c.Ctx = context.Background()
+		c.Verdict = func(inv *world.QFInv) { inv.Quorum = len(inv.Keys) >= 2 }
+		w.Start(c)
+		mc.Quiesce()
+		name := fmt.Sprintf("qc/%s/after-%s-nsw=%v-and-reset-of-node-2", kind, oneWay, nsw)
+		done, err := callDone(c)
+		switch {
+		case !done:
+			fail("C02/return-iff", classOf(kind)+"/after-one-way-and-reset", "%s: both nodes are up and answer, but the call has not returned (node 1 entered %d, node 2 entered %d, quorum function invoked %d times)", name, w.Entered(1, c.Tok), w.Entered(2, c.Tok), len(c.QF))
+			mc.Outcome("waiting")
+		case err != nil:
+			fail("C02/other-outcome", classOf(kind)+"/after-one-way-and-reset", "%s: both nodes are up and answer and the context is alive, but the call reports %v", name, err)
+			mc.Outcome("error")
+		default:
+			mc.Outcome("returned")
+		}
+	}
+}
+
 func handlerError(node int) error {
 	return status.Error(codes.NotFound, fmt.Sprintf("boom%d", node))
 }
@@ -550,12 +590,19 @@ func init() {
 		"interleavings are explored up to the reported deviation bound from the non-preemptive round-robin schedule; free choices (arrival order, select ties) are exhaustive",
 	}
 	register(&Check{ID: "C01", Rule: rule, Gen: qcInstances, Assumptions: assume})
-	register(&Check{ID: "C02", Rule: rule + "; plus the connection-fault instances of C07 for one failing node of two (crash, reset, crash+restart struck by an adversary thread, also while the request is still queued), where an Incomplete result must account for exactly the nodes that failed - never while a targeted node is still silent and the context alive",
+	register(&Check{ID: "C02", Rule: rule + "; plus a quorum call issued after a one-way message (unicast / multicast, with and without no-send-waiting) and a reset of the node's stream, which must return success when both nodes answer; plus the connection-fault instances of C07 for one failing node of two (crash, reset, crash+restart struck by an adversary thread, also while the request is still queued), where an Incomplete result must account for exactly the nodes that failed - never while a targeted node is still silent and the context alive",
 		Gen: func(tier string) []Instance {
 			out := qcInstances(tier)
 			for _, kind := range []string{"QuorumCall", "QuorumCallAsync"} {
 				for _, buf := range []uint{0, 1} {
 					out = append(out, Instance{Name: fmt.Sprintf("qc/%s/busy-sender-on-node-2/buf=%d", kind, buf), Bound: 1, Root: busySenderScenario(kind, buf)})
+				}
+			}
+			for _, kind := range []string{"QuorumCall", "QuorumCallAsync"} {
+				for _, ow := range []string{"Unicast", "Multicast"} {
+					for _, nsw := range []bool{false, true} {
+						out = append(out, Instance{Name: fmt.Sprintf("qc/%s/after-%s-nsw=%v-and-reset-of-node-2", kind, ow, nsw), Bound: 1, Root: afterOneWayResetScenario(kind, nsw, ow)})
+					}
 				}
 			}
 			for _, in := range faultInstances(tier) {
